@@ -879,7 +879,8 @@ def _opt_child_main(ctx):
         res["crashed"] = "%r\n%s" % (e, traceback.format_exc()[-3000:])
     res.update({"mismatches": ctx.mismatches[:200], "oracle_failures": ctx.oracle_failures[:500],
                 "n_mismatches": len(ctx.mismatches), "n_oracle_failures": len(ctx.oracle_failures),
-                "evaluations": ctx.evaluations, "distinct": len(ctx.distinct), "seconds": time.time() - ctx.t0})
+                "evaluations": ctx.evaluations, "distinct": len(ctx.distinct), "seconds": time.time() - ctx.t0,
+                "skipped": ctx.extra.get("python_O_skipped")})
     with open(os.path.join(os.environ["VERIF_WORK"], "result.json"), "w") as f:
         json.dump(res, f, default=str)
     return 0
@@ -921,6 +922,8 @@ def _join_opt_child(ctx, child):
     ctx.extra["python_O_pass"] = {"cases": res.get("evaluations"), "distinct": res.get("distinct"),
                                   "correspondence_mismatches": res.get("n_mismatches"),
                                   "oracle_failures": res.get("n_oracle_failures"), "seconds": round(res.get("seconds", 0), 1)}
+    if res.get("skipped"):
+        ctx.extra["python_O_pass"]["skipped"] = res["skipped"]
     ctx.notes.append("the correspondence and the direct oracle also ran in a second interpreter under %s: %s cases, "
                      "%s correspondence mismatches, %s oracle failures" % (env_tag, res.get("evaluations"),
                                                                            res.get("n_mismatches"), res.get("n_oracle_failures")))
